@@ -10,6 +10,8 @@
    All statements quantify over the oracle tables (what YAML parsing sees), the chooser (Go's map
    iteration order), the fuel, all three arguments, ALL fault positions and all well-formed states. *)
 From KV Require Import Fs.LocPath Fs.LocPathProofs Fs.Localize Fs.LocalizeProofs Fs.LocalizeExamples.
+From KV Require Import Fs.LocalizeBuild Fs.LocalizeBuildProofs.
+From KV Require Res.Pipeline.
 Open Scope list_scope.
 
 (* Every mkdir / write that any run attempts — whatever fails, wherever — targets a path inside
@@ -39,18 +41,19 @@ Print Assumptions C18_source_unchanged.
      all_or_nothing_law := forall … fault s w out, fs_wf s -> exists_path s newDir = false ->
        run_localize … fault s = (w, out) -> out is not Ok -> (no RemoveAll failed) ->
        exists_path (w_fs w) newDir = false.
-   PROVED part (since the repair d268200 in /repo it covers EVERY error return): whenever localize
-   RETURNS an error — for every fault position, the early ones included — newDir, which did not
-   exist before, does not exist afterwards, provided no RemoveAll call failed (a failed cleanup is a
-   second failure: out of the single-fault domain, see design.d/C18.md).
-   Missing: the exits that are not error returns (refuted_3 log.Fatalf, refuted_4 / refuted_5
-   log.Panicf).  Shapes (a) "ConfirmDir fails after Mkdir" and (b) "MkdirAll(dst) fails" were
-   refuted_1 / refuted_2 until d268200; they are now instances of this theorem. *)
+   PROVED part (after the repairs d268200 and 113a8f3): whenever localize RETURNS an error or PANICS —
+   for every fault position — newDir, which did not exist before, does not exist afterwards,
+   provided no RemoveAll call failed (a failed cleanup is a second failure: out of the single-fault
+   domain, see design.d/C18.md).
+   Missing: the process exit (refuted_3, log.Fatalf — os.Exit runs no deferred call).  Shapes (a),
+   (b) (refuted_1/_2 until d268200) and (d), (e) (refuted_4/_5 until 113a8f3) are instances of this
+   theorem now; regression examples repaired_a/_b/_d/_e in Fs/LocalizeExamples.v. *)
 Theorem C18_all_or_nothing_partial :
-  forall orc ch fuel target scope newdir fault s w,
+  forall orc ch fuel target scope newdir fault s w x,
     fs_wf s ->
+    x = XErr \/ x = XPanic ->
     exists_path s (newdir_path target newdir) = false ->
-    run_localize orc ch fuel target scope newdir fault s = (w, OExn XErr) ->
+    run_localize orc ch fuel target scope newdir fault s = (w, OExn x) ->
     (forall e, In e (w_trace w) -> ev_op e = ORemoveAll -> ev_ok e = true) ->
     exists_path (w_fs w) (newdir_path target newdir) = false.
 Proof. exact all_or_nothing_partial. Qed.
@@ -69,29 +72,13 @@ Proof. exact nothing_created_nothing_left. Qed.
 Print Assumptions C18_all_or_nothing_partial_early.
 
 (* leftover_at i x: on the tree of corpus/C18/two-roots.json (target /s/t, scope /s, newDir /new),
-   failing fallible operation number i ends with outcome x, satisfies every hypothesis of
+   failing file-system call number i ends with outcome x, satisfies every hypothesis of
    all_or_nothing_law, and leaves /new behind. *)
 
 (* (c) CleanedAbs inside cleanedRelativePath fails: log.Fatalf, the process exits *)
 Theorem C18_all_or_nothing_refuted_3 : exists i, leftover_at i XFatal.
 Proof. exact all_or_nothing_refuted_3. Qed.
 Print Assumptions C18_all_or_nothing_refuted_3.
-
-(* (d) ConfirmDir inside localizeRoot fails: log.Panicf (found while building the check) *)
-Theorem C18_all_or_nothing_refuted_4 : exists i, leftover_at i XPanic.
-Proof. exact all_or_nothing_refuted_4. Qed.
-Print Assumptions C18_all_or_nothing_refuted_4.
-
-(* (e) helm: ConfirmDir inside copyChartHome fails (corpus/C18/helm-chart-home.json, fallible
-   operation 23): log.Panicf, /new with a partial copy stays *)
-Theorem C18_all_or_nothing_refuted_5 :
-  fs_wf ex2_fs /\
-  exists_path ex2_fs ex_nd = false /\
-  snd (ex2_run (Some 23)) = OExn XPanic /\
-  (forall e, In e (w_trace (fst (ex2_run (Some 23)))) -> ev_op e = ORemoveAll -> ev_ok e = true) /\
-  exists_path (w_fs (fst (ex2_run (Some 23)))) ex_nd = true.
-Proof. exact leftover_5. Qed.
-Print Assumptions C18_all_or_nothing_refuted_5.
 
 (* "produces a copy whose build output is identical" is REFUTED on the faithful model without any
    fault (corpus/C18/helm-values-inside-home.json): helmCharts[0].valuesFile lies inside the local
@@ -139,6 +126,37 @@ Theorem C18_equivalent_partial :
        lookup (join_abs (lc_dst lc) s) (w_fs w') = Some EDir).
 Proof. exact loc_file_copies. Qed.
 Print Assumptions C18_equivalent_partial.
+
+(* Towards "building the localized copy equals building the original", in the integrated build model
+   (Res/Pipeline.v) and for the directive set the two models share: `resources` (files and nested
+   kustomization roots) plus every non-path directive, carried opaquely ([dirs]).
+     read_tree    resolves a root of a file-system state into the tree a build loads (the unique
+                  kustomization file, its resources entries joined to the root: a resource file inside
+                  the root, or a directory read recursively);
+     mirror_ok    DECIDABLE: every binding below newDir is an existing source directory, a
+                  byte-identical copy of the file at the mirrored source path, a localized plugin, or a
+                  localized kustomization whose resources are the cleaned references of the source's,
+                  all resolving inside the scope.
+   PROVED: for EVERY pair of states related by mirror_ok, the tree read from the destination is the
+   tree read from the source, so Pipeline.build gives the same result whatever YAML parsing yields
+   ([docs]) and whatever the non-path directives are.
+   CHECKED, not proved: that the final state of a successful run satisfies mirror_ok and that the
+   destination reads whenever the source does — Corr/C18.v evaluates both on the final state of every
+   successful run (fault-free or not) of every case, and that state is compared with the
+   implementation's.  Outside: patches, generators with file sources, configurations, openapi path —
+   Pipeline.v has no syntax for them (they are covered per reference by C18_equivalent_partial and on
+   the implementation by the krusty.Run oracle). *)
+Theorem C18_equivalent_build_partial :
+  forall orc scope nd s0 s',
+    good_path scope = true -> good_path nd = true -> fs_wf s0 -> fs_wf s' ->
+    mirror_ok orc scope nd s0 s' = true ->
+    forall fuel fuel' r t t', good_path r = true ->
+      read_tree orc fuel s' (nd ++ r) = Some t' ->
+      read_tree orc fuel' s0 (scope ++ r) = Some t ->
+      forall nonstr docs dirs o,
+        Pipeline.build nonstr o (to_ptree docs dirs t') = Pipeline.build nonstr o (to_ptree docs dirs t).
+Proof. exact mirror_build_eq. Qed.
+Print Assumptions C18_equivalent_build_partial.
 
 (* ---- obligations over the tables regenerated from /repo (Gen/LocalizeTables.v) ---- *)
 
@@ -200,3 +218,28 @@ Theorem C18_Gen_fatal_sites :
    ("locRootPath", "log.Panicf")].
 Proof. exact Gen_fatal_sites. Qed.
 Print Assumptions C18_Gen_fatal_sites.
+
+(* the fault points of the model = the FileSystem call sites of the source (see Fs/LocalizeProofs.v
+   model_fs_sites): site-for-site agreement with the regenerated list, and the effect signature is
+   exactly the set of methods called at the in-model sites.  [run] can fail every effect a program
+   issues (C18_every_call_is_a_fault_point). *)
+Theorem C18_Gen_fs_call_sites :
+  List.map fst model_fs_sites = gen_fs_call_sites.
+Proof. exact Gen_fs_call_sites. Qed.
+Print Assumptions C18_Gen_fs_call_sites.
+
+Theorem C18_Gen_fault_points :
+  forallb (fun m => existsb (fun o => String.eqb (opcode_name o) m) all_opcodes) in_model_methods = true /\
+  forallb (fun o => existsb (String.eqb (opcode_name o)) in_model_methods) all_opcodes = true.
+Proof. exact Gen_fault_points. Qed.
+Print Assumptions C18_Gen_fault_points.
+
+(* every file-system call of a run is a fault point: when the fault index equals the number of calls
+   made so far, the call fails (error result, or false for Exists) and the state is untouched *)
+Theorem C18_every_call_is_a_fault_point :
+  forall (e : eff) (w : world),
+    (forall c, e <> EChoose c) ->
+    step_world (Some (w_n w)) e w =
+    (mkW (w_fs w) (S (w_n w)) (mkEv (eff_op e) (eff_path e) (res_ok (fail_res e)) :: w_trace w), fail_res e).
+Proof. exact every_call_faultable. Qed.
+Print Assumptions C18_every_call_is_a_fault_point.
